@@ -531,38 +531,94 @@ def r8_mount_identity_available(ctx):
         for st in blk.stmts:
             if st.kind == "assign" and st.rv["k"] == "agg" and st.rv.get("adt") == "std::option::Option":
                 (some_b if st.rv.get("variant") == "Some" else none_b).add(blk.idx)
+    from ..cut import stmt_bool_edges
+    # the test on the returned mask, in any of its spellings -> (where, description, predicate on the mask, the bool's
+    # consumer: ("edges", {true, false}) or ("then", call))
     tests = []
+
+    def full_const(v):
+        return v is not None and len(v.alts) == 1 and (v.alts[0].s | v.alts[0].c) & 0xffff == 0xffff
+
     for t in b.calls():
         m = (t.callee or "").rsplit("::", 1)[-1]
         if m not in ("intersects", "contains") or "StatxFlags" not in " ".join(t.argtys):
             continue
         k = bits.arg_value(t, 1) if bits else None
-        be = bool_edges(b, t)
-        if k is None or be is None or len(k.alts) != 1 or (k.alts[0].s | k.alts[0].c) & 0xffff != 0xffff:
-            tests.append((t, m, None, be))
-        else:
-            tests.append((t, m, k.alts[0].s & 0xffffffff, be))
+        if not full_const(k):
+            tests.append((t.where(), m, None, None))
+            continue
+        K = k.alts[0].s & 0xffffffff
+        pred = (lambda g, K=K: (g & K) != 0) if m == "intersects" else (lambda g, K=K: (g & K) == K)
+        cons = None
+        for c in b.calls():
+            if (c.callee or "").rsplit("::", 1)[-1] in ("then_some", "then") and c.argtys and "bool" in c.argtys[0]:
+                o = T.origins_of_arg(c, 0)
+                if o and all(x.kind == "call" and x.term is t for x in o):
+                    cons = ("then", c)
+        if cons is None:
+            be = bool_edges(b, t)
+            cons = ("edges", be) if be else None
+        tests.append((t.where(), "%s(%#x)" % (m, K), pred, cons))
+    # `mask.bits() & K != 0` and friends
+    for blk in b.blocks:
+        if blk.cleanup:
+            continue
+        for idx, st in enumerate(blk.stmts):
+            if st.kind != "assign" or st.rv["k"] != "bin" or st.rv["op"] not in ("Ne", "Eq"):
+                continue
+            ops = st.rv_operands()
+            cv = [o for o in ops if o.is_const]
+            other = [o for o in ops if not o.is_const]
+            if len(cv) != 1 or len(other) != 1 or cv[0].int_value() is None:
+                continue
+            andk = None
+            for o in T.origins_of_operand(b, blk.idx, idx, other[0]):
+                if o.kind == "expr" and (o.detail or "").startswith("bin:BitAnd") and o.stmt is not None:
+                    pos = [(bl.idx, i2) for bl in b.blocks for i2, s2 in enumerate(bl.stmts) if s2 is o.stmt]
+                    stt = bits.at_stmt(*pos[0]) if pos and bits else None
+                    if stt is None:
+                        continue
+                    for x in o.stmt.rv_operands():
+                        v = bits.val_op(stt, x)
+                        if full_const(v) and (v.alts[0].s & (STATX_MNT_ID | STATX_MNT_ID_UNIQUE)):
+                            andk = v.alts[0].s & 0xffffffff
+            if andk is None:
+                continue
+            C = cv[0].int_value()
+            pred = (lambda g, K=andk, C=C: (g & K) != C) if st.rv["op"] == "Ne" else (lambda g, K=andk, C=C: (g & K) == C)
+            be = stmt_bool_edges(b, blk.idx, idx)
+            tests.append(("%s:%s" % (b.file, st.line), "mask & %#x %s %#x" % (andk, "!=" if st.rv["op"] == "Ne" else "==", C), pred, ("edges", be) if be else None))
     key = "fetch_mnt_id:mask-test"
-    if len(tests) != 1 or tests[0][2] is None or not some_b or not none_b:
-        out.append(unproven("C06.R8", key, b.where(), "cannot evaluate how fetch_mnt_id decides whether the kernel reported a mount id (%d mask tests, %d Some, %d None constructions)" % (len(tests), len(some_b), len(none_b))))
+    GENS = (("STATX_MNT_ID only (Linux 5.8-6.7)", STATX_BASIC | STATX_MNT_ID, True),
+            ("STATX_MNT_ID_UNIQUE only (Linux 6.8+)", STATX_BASIC | STATX_MNT_ID_UNIQUE, True),
+            ("both bits", STATX_BASIC | STATX_MNT_ID | STATX_MNT_ID_UNIQUE, True),
+            ("neither bit (pre-5.8)", STATX_BASIC, False))
+    if len(tests) != 1 or tests[0][2] is None or tests[0][3] is None:
+        out.append(unproven("C06.R8", key, b.where(), "cannot evaluate how fetch_mnt_id decides whether the kernel reported a mount id (%d mask tests: %s)" % (len(tests), [x[1] for x in tests])))
     else:
-        t, m, K, be = tests[0]
+        where, desc, pred, cons = tests[0]
         bad = []
-        for name, g, want_some in (("STATX_MNT_ID only (Linux 5.8-6.7)", STATX_BASIC | STATX_MNT_ID, True),
-                                   ("STATX_MNT_ID_UNIQUE only (Linux 6.8+)", STATX_BASIC | STATX_MNT_ID_UNIQUE, True),
-                                   ("both bits", STATX_BASIC | STATX_MNT_ID | STATX_MNT_ID_UNIQUE, True),
-                                   ("neither bit (pre-5.8)", STATX_BASIC, False)):
-            truth = ((g & K) != 0) if m == "intersects" else ((g & K) == K)
-            reach = cfg.edge_targets_reachable(be["true"] if truth else be["false"])
-            got_some, got_none = bool(reach & some_b), bool(reach & none_b)
+        if cons[0] == "then":
+            ro = [x for x in T.return_origins(b, OKP) if not (x.kind == "call" and x.term.callee == "std::ops::FromResidual::from_residual")]
+            if not any(x.kind == "call" and x.term is cons[1] for x in ro):
+                bad.append("the Option built from the test is not what fetch_mnt_id returns")
+        elif not some_b or not none_b:
+            bad.append("no Some/None construction behind the test")
+        for name, g, want_some in GENS:
+            truth = pred(g)
+            if cons[0] == "then":
+                got_some, got_none = truth, not truth
+            else:
+                reach = cfg.edge_targets_reachable(cons[1]["true"] if truth else cons[1]["false"])
+                got_some, got_none = bool(reach & some_b), bool(reach & none_b)
             if want_some and (not got_some or got_none):
                 bad.append("kernel reports %s -> mount id treated as unknown" % name)
             if not want_some and got_some:
                 bad.append("kernel reports %s -> a zero field is taken for a mount id" % name)
         if bad:
-            out.append(violated("C06.R8", key, t.where(), "%s(%#x) on the returned statx mask: %s; with the id unknown on both sides every mount comparison passes" % (m, K, "; ".join(bad))))
+            out.append(violated("C06.R8", key, where, "%s on the returned statx mask: %s; with the id unknown on both sides every mount comparison passes" % (desc, "; ".join(bad))))
         else:
-            out.append(holds("C06.R8", key, t.where(), "%s(%#x): Some(id) for MNT_ID, MNT_ID_UNIQUE or both, None for neither" % (m, K)))
+            out.append(holds("C06.R8", key, where, "%s: Some(id) for MNT_ID, MNT_ID_UNIQUE or both, None for neither" % desc))
     items = []
     for fb in F.fn_bodies():
         if fb.file == "src/syscalls.rs":
